@@ -1,3 +1,4 @@
 -- Root of the `FsVerif` library: models, proofs, property theorems.
 import FsVerif.Model.Basic
 import FsVerif.Model.PosStore
+import FsVerif.Model.BufStore
